@@ -93,7 +93,7 @@ def deflate_bomb(raw: bool, expanded: int) -> bytes:
 
 
 @functools.lru_cache(maxsize=None)
-def vmdk_bomb(form: str) -> bytes:
+def vmdk_bomb(form: str, lba: int = 0) -> bytes:
     """A stream-optimised extent with one compressed grain whose stream expands to 128 MiB; the stream is zlib-wrapped (as the
     format has it), a raw deflate stream, or gzip-wrapped (what a lenient reader might also accept)."""
     import gzip as _gzip
@@ -113,7 +113,7 @@ def vmdk_bomb(form: str) -> bytes:
             grain_sector = off // 512
             break
     pos = len(gb)
-    gb.extend(struct.pack("<QI", 0, len(zb)) + zb)
+    gb.extend(struct.pack("<QI", lba & 0xFFFFFFFFFFFFFFFF, len(zb)) + zb)  # the marker's own LBA field: any value (capacity is 200)
     gb.extend(bytes(-len(gb) % 512))
     # point the grain table entry at the bomb
     for off in range(0, pos - 4, 4):
@@ -427,8 +427,17 @@ def exhaustive(tier):
     # the same bomb as a raw deflate stream and as a gzip member (stream wrappers a lenient reader might fall back to)
     for form in ("raw", "gzip"):
         yield {"seed": "vmdk-bomb", "ops": [], "craft": "bomb-stream", "form": form}
+    for lba in (1, 8, 192, 199, 200, 201, 208, 1 << 32, 1 << 63, (1 << 64) - 1, (1 << 64) - 8):
+        # the bomb behind a grain marker whose embedded LBA is at / next to the capacity or wraps: bounds derived from that field
+        yield {"seed": "vmdk-bomb", "ops": [], "craft": "bomb-stream", "form": "zlib", "lba": lba}
     # memory must follow the request at hand, not the number of earlier requests: sweep over many large compressed grains
     yield {"seed": "vmdk-stream", "ops": [], "craft": "biggrain-sweep"}
+    for depth, width in ((18, 2), (12, 3), (24, 2)):
+        yield {"seed": "vmdk-descriptor", "ops": [], "vmdk_deep_chain": depth, "width": width}
+    for opt in ("rounds", "iterations", "iter", "count", "cost", "version", "keyId", "data3"):
+        for val in ("2147483647", "1000000000000", "-1", "0"):
+            # a keystore whose ConfigEncData carries one more option: the derivation cost is the format's constant, not the file's choice
+            yield {"seed": "keystore", "ops": [], "craft": "keystore-option", "opt": opt, "val": val}
     yield {"seed": "qcow2", "ops": [], "craft": "l1-to-header"}
     yield {"seed": "vhdx", "ops": [], "craft": "region-to-itself"}
 
@@ -590,7 +599,7 @@ def drive(kind, data: bytes, spec):
         from dissect.hypervisor.util.envelope import KeyStore
 
         text = data.decode("utf-8", "replace")
-        if re.search(r"mode\s*=\s*\"?NONE", text) and "ConfigEncData" in text:
+        if re.search(r"mode\s*=\s*\"?NONE", text) and "ConfigEncData" in text and spec.get("craft") != "keystore-option":
             text = text.replace("NONE", "N0NE")  # 100k PBKDF2 rounds per case are C16's business; exercise the parser only
         KeyStore.from_text(text)
         stage = "opened"
@@ -657,6 +666,30 @@ def vmdk_parent_cycle_case(spec):
         with open(os.path.join(d, "flat.bin"), "wb") as f:
             f.write(bytes(16 * 512))
         v = VMDK(Path(d) / "disk0.vmdk")
+        touch_stream(v)
+    finally:
+        shutil.rmtree(top, ignore_errors=True)
+
+
+def vmdk_deep_chain_case(spec):
+    """An ordinary (acyclic) snapshot chain, `depth` descriptors deep, every level made of `width` sparse extents: the work to open
+    it is linear in the number of files, whatever the shape."""
+    from dissect.hypervisor.disk.vmdk import VMDK
+
+    depth, width = spec["vmdk_deep_chain"], spec["width"]
+    ext = bvmdk.build({"kind": "kdmv", "capacity": 16, "grain": 8, "present_gts": [], "pad": 0, "layer": 0, "gtes": 16, "zero_flag": False,
+                       "redundant": False, "meta_first": True, "compressed": False, "footer": False, "version": 1, "grains": []})[0].materialize()
+    top = scratch_dir()
+    try:
+        for j in range(width):
+            with open(os.path.join(top, f"e{j}.vmdk"), "wb") as f:
+                f.write(ext)
+        for i in range(depth):
+            last = i == depth - 1
+            with open(os.path.join(top, f"disk{i}.vmdk"), "w") as f:
+                f.write(bvmdk.descriptor_text({"parent_cid": "ffffffff" if last else "11223344", "parent_hint": None if last else f"disk{i + 1}.vmdk",
+                                               "extents": [{"sectors": 16, "type": "SPARSE", "file": f"e{j}.vmdk"} for j in range(width)]}))
+        v = VMDK(Path(top) / "disk0.vmdk")
         touch_stream(v)
     finally:
         shutil.rmtree(top, ignore_errors=True)
@@ -811,11 +844,11 @@ def check(spec) -> Outcome:
     out.cls(sname)
     inp_len = 0
     runner = None
-    crafted_dirs = ("cycle", "vhdx_parent_cycle", "hdd_storages", "vmdk_parent_cycle")
+    crafted_dirs = ("cycle", "vhdx_parent_cycle", "hdd_storages", "vmdk_parent_cycle", "vmdk_deep_chain")
     runner_is_input = not any(k in spec for k in crafted_dirs)
     if not runner_is_input:
         fn = (hdd_cycle_case if "cycle" in spec else vhdx_parent_cycle_case if "vhdx_parent_cycle" in spec else
-              vmdk_parent_cycle_case if "vmdk_parent_cycle" in spec else hdd_storages_case)
+              vmdk_parent_cycle_case if "vmdk_parent_cycle" in spec else vmdk_deep_chain_case if "vmdk_deep_chain" in spec else hdd_storages_case)
         runner = lambda: fn(spec)  # noqa: E731
         inp_len = 4096 if "vhdx_parent_cycle" not in spec else 4 << 20
         out.cls("crafted-cycle" if "hdd_storages" not in spec else "crafted")
@@ -844,7 +877,11 @@ def check(spec) -> Outcome:
             mutated = vmdk_bomb_with_footer(spec["front_grain"])
             out.cls("crafted")
         elif spec.get("craft") == "bomb-stream":
-            mutated = vmdk_bomb(spec["form"])
+            mutated = vmdk_bomb(spec["form"], spec.get("lba", 0))
+            out.cls("crafted")
+        elif spec.get("craft") == "keystore-option":
+            where = ":version=1" if spec["opt"] != "version" else ":version=1\""
+            mutated = data.replace(where.encode(), (f":{spec['opt']}={spec['val']}" + where).encode(), 1)
             out.cls("crafted")
         elif spec.get("craft") == "pax-cycle":
             mutated = vmtar_pax_cycle(spec["lead"], spec["size"], spec["target"])
